@@ -548,6 +548,12 @@ def check_formats(ctx, rule="C06.R10"):
                 continue        # belongs to a nested function, which is visited on its own
             want = format_arity(node.left.value)
             r = node.right
+            if isinstance(r, (ast.Name, ast.Attribute, ast.Subscript)) and any(isinstance(x, ast.Name) and x.id == "obj" for x in ast.walk(r)):
+                # the object being parsed/built is arbitrary user data: as a bare operand of %, a tuple would be unpacked into the format
+                n += 1
+                ctx.ob(rule, fi, False, "format string %r is applied to the bare object %s: if that object is a tuple the formatting itself raises TypeError -- wrap it as (%s,)" % (
+                    node.left.value[:40], ast.unparse(r), ast.unparse(r)), key="format %s bare obj" % node.left.value[:60], node=node)
+                continue
             if want is None or isinstance(r, (ast.Name, ast.Dict, ast.Starred)):
                 continue
             have = len(r.elts) if isinstance(r, ast.Tuple) else 1
@@ -595,8 +601,8 @@ def run(ctx):
             continue
         cls = fi.cls.name if fi.cls else None
         top = fi.qual.split(".")[0]
-        if top in WRAPPER_CLASSES:
-            continue
+        if top in WRAPPER_CLASSES and (fi.node.args.args[:1] and fi.node.args.args[0].arg == "self"):
+            continue        # instance methods of a wrapper act on the wrapper itself; its static helpers receive the outer stream and are checked
         if fi.qual in R1_EXCLUDED:
             continue
         n1 += check_rawio(ctx, fi, cls)
